@@ -1,0 +1,14 @@
+//go:build verif
+
+package extendeddaemonsetreplicaset
+
+// Contracts read by the verification engine in /verif (govc). Comment-only file.
+//
+//@ func retrieveReplicaSetStatus
+//@   transparent
+//@   requires daemonset != nil
+//@   let active = daemonset.Status.ActiveReplicaSet
+//@   ensures [C04] active-role: result == "active" <==> active != "" && active == replicassetName
+//@   ensures [C04] canary-role: result == "canary" <==> active != "" && active != replicassetName
+//@             && daemonset.Status.Canary != nil && daemonset.Status.Canary.ReplicaSet == replicassetName
+//@   ensures [C04] otherwise-unknown: result == "active" || result == "canary" || result == "unknown"
